@@ -2,6 +2,7 @@ use crate::driver::Check;
 
 pub mod c03;
 pub mod c04;
+pub mod c04cli;
 pub mod c05;
 pub mod c06;
 pub mod c10;
